@@ -158,13 +158,17 @@ PROPS = {
     },
     "C12": {
         "title": "for_each / enumerate_for_each / fold",
-        "rules": [r_fwd.rule_each, r_ovf.rule_zero, r_ovf.rule_ovf, r_m1.rule_one, r_ticket.rule_ord, r_fwd.rule_wrap],
+        "rules": [r_fwd.rule_each, r_ovf.rule_zero, r_ovf.rule_ovf, r_m1.rule_one, r_ticket.rule_ord, r_fwd.rule_wrap,
+                  r_m1.rule_endguard, r_m1.rule_nonempty, r_m1.rule_complete, r_m1.rule_prov, r_m1.rule_amt],
         "explanation": "EACH: the three trait defaults pass their arguments unchanged to the algorithms and no implementor "
                        "overrides them; in each algorithm chunk_size > 0 is asserted first (ZERO.a); the single-pull loop and "
                        "the buffered loop exit only on the None of the pull made in that iteration; every Some payload reaches "
                        "exactly one call of the user's function on every path (directly, via Iterator::for_each, or an inner "
                        "loop whose own exit is the chunk's None); indices are the pulled indices; fold threads one accumulator. "
-                       "Exhaustion and exactly-once of the pulls themselves: rules of C01 (ONE, OVF amounts, ORD included here).",
+                       "Every path through an algorithm runs one of its pull loops (or a private helper that does). "
+                       "Exhaustion and exactly-once of the pulls the loops rest on: ONE, OVF amounts, ORD, and the pull-level "
+                       "rules ENDGUARD / NONEMPTY (a pull never answers Some(empty), which would keep the buffered loop spinning "
+                       "forever on an exhausted source), COMPLETE, PROV (reported index) and AMT are part of this check.",
         "declined": "the algebraic statement about combining fold results (depends on the user's operation)",
         "technique": "static analysis: natural-loop exit edges + must-pass-through of the closure call",
     },
